@@ -338,8 +338,10 @@ Definition dflt (o : option N) (d : N) : N := match o with Some v => v | None =>
 Definition tw_update_stage_config (sender : addr) (id : N) (st en dn lm : option N) (s : tw_state)
   : result tw_state :=
   do _ <- guard (is_admin (tw_admins s) sender);
-  match nth_error (tw_stages s) (N.to_nat id) with
-  | None => Err                                 (* index out of bounds: panic *)
+  (* index out of bounds: panic.  The range test comes first so that no huge unary
+     number is ever built from a u32 stage_id *)
+  match (if id <? N.of_nat (length (tw_stages s)) then nth_error (tw_stages s) (N.to_nat id) else None) with
+  | None => Err
   | Some old =>
       let upd := mkStage (dflt st (st_start old)) (dflt en (st_end old)) (dflt dn (st_denom old))
                          (dflt lm (st_limit old)) in
